@@ -24,6 +24,7 @@ import (
 
 	afake "github.com/ovrclk/akash/pkg/client/clientset/versioned/fake"
 	"github.com/ovrclk/akash/provider/cluster/kube"
+	mtypes "github.com/ovrclk/akash/x/market/types"
 
 	"verif/harness/vcommon"
 )
@@ -53,14 +54,30 @@ type PRound struct {
 	Built []PBuilt `json:"built"` // what the builders' create() return, called directly
 }
 
-type PLine struct {
-	ID      int      `json:"id"`
-	Slice   string   `json:"slice"`
-	Input   AInput   `json:"input"`
-	Lease   ALease   `json:"lease"` // concrete: real bech32 addresses
-	NS      string   `json:"ns"`    // lidNS(lease)
+// POther is the Deploy of a second lease into the same cluster.
+type POther struct {
+	Lease   ALease   `json:"lease"`
+	NS      string   `json:"ns"`
 	NSChars []string `json:"nsChars"`
-	Rounds  []PRound `json:"rounds"`
+	Round   PRound   `json:"round"`
+}
+
+// PTeardown is TeardownLease(main lease), called last.
+type PTeardown struct {
+	Err  string `json:"err"`
+	Acts []PAct `json:"acts"`
+}
+
+type PLine struct {
+	ID       int       `json:"id"`
+	Slice    string    `json:"slice"`
+	Input    AInput    `json:"input"`
+	Lease    ALease    `json:"lease"` // concrete: real bech32 addresses
+	NS       string    `json:"ns"`    // lidNS(lease)
+	NSChars  []string  `json:"nsChars"`
+	Rounds   []PRound  `json:"rounds"`
+	Other    []POther  `json:"other"`
+	Teardown PTeardown `json:"teardown"`
 }
 
 var kinds = map[string]string{"namespaces": "namespace", "networkpolicies": "netpol", "deployments": "deployment",
@@ -71,6 +88,12 @@ type recorder struct {
 	on   bool
 	acts []PAct
 	err  error
+}
+
+func (r *recorder) set(on bool) {
+	r.mu.Lock()
+	r.on = on
+	r.mu.Unlock()
 }
 
 func (r *recorder) react(a ktesting.Action) (bool, k8sruntime.Object, error) {
@@ -254,28 +277,24 @@ func runInput(in AInput) (*PLine, error) {
 	kc.PrependReactor("*", "*", rec.react)
 	ac.PrependReactor("*", "*", rec.react)
 
-	for _, r := range in.Rounds {
+	deploy := func(lid mtypes.LeaseID, r ARound) (*PRound, error) {
 		g, err := group(r)
 		if err != nil {
 			return nil, err
 		}
 		st := settings(r.St)
-		// the client is rebuilt per round: a provider restarted with other settings redeploys into the same cluster
+		// the client is rebuilt per Deploy: a provider restarted with other settings redeploys into the same cluster
 		client, err := kube.VerifNewClient(ctx, log.NewNopLogger(), providerNS, st, kc, ac)
 		if err != nil {
 			return nil, fmt.Errorf("input %d: constructing client: %w", in.ID, err)
 		}
-		rec.mu.Lock()
-		rec.on = true
-		rec.mu.Unlock()
+		rec.set(true)
 		derr := client.Deploy(ctx, lid, g)
-		rec.mu.Lock()
-		rec.on = false
-		rec.mu.Unlock()
+		rec.set(false)
 		if rec.err != nil {
 			return nil, fmt.Errorf("input %d: %w", in.ID, rec.err)
 		}
-		pr := PRound{Acts: rec.take(), Built: []PBuilt{}}
+		pr := &PRound{Acts: rec.take(), Built: []PBuilt{}}
 		if derr != nil {
 			pr.Err = derr.Error()
 		}
@@ -293,7 +312,47 @@ func runInput(in AInput) (*PLine, error) {
 			}
 			pr.Built = append(pr.Built, PBuilt{NS: b.NS, Obj: p})
 		}
-		line.Rounds = append(line.Rounds, pr)
+		return pr, nil
+	}
+
+	for _, r := range in.Rounds {
+		pr, err := deploy(lid, r)
+		if err != nil {
+			return nil, err
+		}
+		line.Rounds = append(line.Rounds, *pr)
+	}
+	line.Other = []POther{}
+	for _, o := range in.Other {
+		lid2 := leaseID(o.Lease)
+		pr, err := deploy(lid2, o.R)
+		if err != nil {
+			return nil, err
+		}
+		ns2 := kube.VerifLidNS(lid2)
+		line.Other = append(line.Other, POther{NS: ns2, NSChars: strings.Split(ns2, ""), Round: *pr,
+			Lease: ALease{Owner: lid2.Owner, DSeq: lid2.DSeq, GSeq: lid2.GSeq, OSeq: lid2.OSeq, Provider: lid2.Provider}})
+	}
+	// teardown of the main lease
+	{
+		var st kube.Settings
+		if n := len(in.Rounds); n > 0 {
+			st = settings(in.Rounds[n-1].St)
+		}
+		client, err := kube.VerifNewClient(ctx, log.NewNopLogger(), providerNS, st, kc, ac)
+		if err != nil {
+			return nil, fmt.Errorf("input %d: constructing client: %w", in.ID, err)
+		}
+		rec.set(true)
+		terr := client.TeardownLease(ctx, lid)
+		rec.set(false)
+		if rec.err != nil {
+			return nil, fmt.Errorf("input %d: %w", in.ID, rec.err)
+		}
+		line.Teardown = PTeardown{Acts: rec.take()}
+		if terr != nil {
+			line.Teardown.Err = terr.Error()
+		}
 	}
 	return line, nil
 }
@@ -316,6 +375,9 @@ func Main(args []string) int {
 		var in AInput
 		if err := json.Unmarshal(raw, &in); err != nil {
 			return err
+		}
+		if in.Other == nil {
+			in.Other = []AOther{}
 		}
 		inputs = append(inputs, in)
 		return nil
